@@ -137,8 +137,15 @@ class Check:
                         break
                 self.vacuity.append({"guard": base, "refuted": refuted})
                 if not refuted:
-                    raise RuntimeError(f"vacuity guard {base} was not refuted: the contract is too weak or "
-                                       "the precondition excludes everything")
+                    # on the tree the contract was written for every guard is refuted; when it is
+                    # not, either the code no longer takes the path the guard stands for or the
+                    # contract has become vacuous: nothing this contract says is believed any more
+                    self.items.append(Item(base, "vacuity-guard", "undecided", "z3", tg,
+                                           {"reason": "a clause that must be refutable was not refuted: the code no "
+                                                      "longer takes the path this guard stands for, or the contract "
+                                                      "is vacuous on it", "clause": obs[0].meta.get("ensures")}))
+                    self.undecided.append(f"{base}: vacuity guard not refuted -- the contract of {contract.key} "
+                                          "decides nothing on this tree")
                 continue
             failed = [ob for ob in obs if ob.result == "failed"]
             unknown = [ob for ob in obs if ob.result == "unknown"]
